@@ -8,6 +8,7 @@ import (
 	"encoding/json"
 	"fmt"
 	"io"
+	"math"
 
 	"github.com/dtn7/cboring"
 )
@@ -42,7 +43,14 @@ func (hcb HopCountBlock) IsExceeded() bool {
 }
 
 // Increment the hop counter and returns if the hop limit is exceeded afterwards.
+//
+// The hop counter is an 8 bit value. A counter of 255 cannot be incremented any further. Instead of wrapping around to
+// zero, the counter is kept and the hop limit is reported as exceeded.
 func (hcb *HopCountBlock) Increment() bool {
+	if hcb.Count == math.MaxUint8 {
+		return true
+	}
+
 	hcb.Count++
 
 	return hcb.IsExceeded()
